@@ -330,6 +330,9 @@ impl<'t, D: Distance> Reader<'t, D> {
                     } else {
                         D::margin_no_header(&normal, &query_leaf.vector)
                     };
+                    // an undefined margin tells nothing either (`f32::min` would ignore it
+                    // and give both children the priority of their parent)
+                    let margin = if margin.is_nan() { 0.0 } else { margin };
                     queue.push((OrderedFloat(D::pq_distance(dist, margin, Side::Left)), left));
                     queue.push((OrderedFloat(D::pq_distance(dist, margin, Side::Right)), right));
                 }
